@@ -633,7 +633,7 @@ func init() {
 							return fw.Violate("compiled_"+sys+"_rejects_valid_proof", fmt.Sprintf("%s (all %d rounds): %v", name, in.K, trunc(err.Error(), 200)))
 						}
 						res := runVerifier(in.Clone(), engine.Options{Face: engine.Commit})
-						if res.Verdict != engine.Accept {
+						if !res.AcceptedHonestly() {
 							return fw.Inconcl("engine (commit face) rejects the valid instance: " + resStr(res))
 						}
 						o.Events += events(res)
